@@ -498,9 +498,11 @@ fn main() {
 		loop {
 			tries += 1;
 			let sec0 = SystemTime::now().duration_since(UNIX_EPOCH).unwrap().as_secs();
+			// the orders come from their own stream so that a clock-tick retry does not shift the main one
+			let mut orng = Rng::new(args.seed.wrapping_mul(1_000_003).wrapping_add(set * 16 + tries));
 			let mut finals: Vec<(Vec<usize>, String, Vec<u8>, Vec<(u64, Vec<u64>)>)> = vec![];
 			for _ in 0..n_orders {
-				let order = random_admissible(&mut rng, &msgs);
+				let order = random_admissible(&mut orng, &msgs);
 				let gb = new_graph();
 				r.rec.directive("reset");
 				for &j in &order { r.exec(&gb, &msgs[j], "B:"); }
